@@ -89,7 +89,7 @@ theorem GoalTop.prefix {W : World} {Γ' : Gam} {pos pos1 endIp : Nat} {g g1 : Ar
     (n : Nat) (hpre : execN W.C n (mkS W.s0 pos #[] #[] #[] g l []) = some (mkS W.s0 pos1 #[] #[] #[] g1 l1 []))
     (ho : st1.out = st.out) (h : GoalTop W Γ' pos1 endIp g1 l1 st1 r) : GoalTop W Γ' pos endIp g l st r := by
   rcases h with h | h
-  · exact .inl (Fails.after n hpre h)
+  · exact .inl (Ovf.after n hpre h)
   refine .inr ?_
   cases r with
   | val u st' =>
